@@ -103,6 +103,65 @@ fn spell_triple(rng: &mut Rng, s: &str) -> Option<(String, String)> {
     }
 }
 
+/// The indentation rule of triple-quoted literals, stated directly (independent of the Lean model):
+/// measure = 1 per space, 4 per tab over the leading blanks; the common measure M is the minimum over
+/// the non-blank lines; every line loses leading blanks until M columns are gone (a tab counts 4 and is
+/// removed whole); lines are joined by `\n`.
+fn measure(line: &str) -> usize {
+    line.chars().take_while(|c| *c == ' ' || *c == '\t').map(|c| if c == ' ' { 1 } else { 4 }).sum()
+}
+fn strip_cols(line: &str, m: usize) -> &str {
+    let mut gone = 0;
+    let mut idx = 0;
+    for (i, c) in line.char_indices() {
+        if gone >= m { idx = i; break; }
+        match c { ' ' => gone += 1, '\t' => gone += 4, _ => { idx = i; break; } }
+        idx = i + c.len_utf8();
+    }
+    &line[idx..]
+}
+fn dedent_value(lines: &[String]) -> String {
+    let m = lines.iter().filter(|l| !is_blank(l)).map(|l| measure(l)).min().unwrap_or(0);
+    lines.iter().map(|l| strip_cols(l, m).to_string()).collect::<Vec<_>>().join("\n")
+}
+fn all_ws(n: usize) -> Vec<String> {
+    // every string over {space, tab} of length <= n
+    let mut v = vec![String::new()];
+    let mut last = vec![String::new()];
+    for _ in 0..n {
+        let mut next = vec![];
+        for w in &last { next.push(format!("{w} ")); next.push(format!("{w}\t")); }
+        v.extend(next.iter().cloned());
+        last = next;
+    }
+    v
+}
+
+/// inverse of `escape('t', ·)` on texts the generator produced (only the printer's own escapes occur)
+fn decode_escapes(raw: &str) -> String {
+    let cs: Vec<char> = raw.chars().collect();
+    let mut o = String::new();
+    let mut i = 0;
+    while i < cs.len() {
+        if cs[i] == '\\' && i + 1 < cs.len() {
+            match cs[i + 1] {
+                'n' => { o.push('\n'); i += 2; }
+                't' => { o.push('\t'); i += 2; }
+                'r' => { o.push('\r'); i += 2; }
+                '"' => { o.push('"'); i += 2; }
+                '\'' => { o.push('\''); i += 2; }
+                '\\' => { o.push('\\'); i += 2; }
+                'x' if i + 3 < cs.len() => {
+                    let v = u8::from_str_radix(&format!("{}{}", cs[i + 2], cs[i + 3]), 16).unwrap_or(b'?');
+                    o.push(v as char); i += 4;
+                }
+                c => { o.push(c); i += 2; }
+            }
+        } else { o.push(cs[i]); i += 1; }
+    }
+    o
+}
+
 fn run_print(lit: &str) -> String {
     let r = run_program(&format!("print({lit})\n"));
     match &r.outcome {
@@ -119,6 +178,8 @@ enum Job {
     Raw { lit: String },
     /// a literal in PATTERN position: `match <value> { <pattern> -> "hit"  _ -> "miss" }`
     Pat { kind: &'static str, value: String, pattern: String, want: String, model_req: Option<String> },
+    /// triple-quoted literal with per-line indentation; `raw` = expected text before escape decoding
+    Dedent { lit: String, raw: String },
     /// a program behind a `#!` line
     Shebang { src: String, want: String },
 }
@@ -220,6 +281,45 @@ fn main() {
     jobs.push(Job::Str { s: "hello\nworld".into(), lit: "\"\"\"\n\thello\n\tworld\n\t\"\"\"".into(), style: "triple-block-tabs".into(), q: 't' });
     jobs.push(Job::Str { s: "hello\n  world".into(), lit: "\"\"\"\n\thello\n\t  world\n\"\"\"".into(), style: "triple-block-tabs".into(), q: 't' });
 
+    // ---- triple-quoted literals whose lines are indented INDEPENDENTLY by arbitrary mixes of spaces and
+    //      tabs (space before tab, tab before space, ...), incl. whitespace-only lines and the closing line
+    {
+        let small = all_ws(3);           // 15 strings
+        let medium = all_ws(4);          // 31 strings
+        let mut lits: Vec<(Vec<String>, String)> = vec![];
+        // exhaustive pairs of short indentations
+        for w1 in &small { for w2 in &small { lits.push((vec![format!("{w1}x"), format!("{w2}y")], "    ".into())); } }
+        // a least-indented line of every shape against lines indented at least as far
+        for w1 in &medium {
+            let m = measure(w1);
+            for w2 in [w1.clone(), " ".repeat(m), " ".repeat(m + 2), format!("{w1} "), "\t\t".to_string(), format!("{w1}\t")] {
+                lits.push((vec![format!("{w1} x"), format!("{w2}y"), format!("{w1}")], w1.clone()));
+                lits.push((vec![format!("{w1}x é"), String::new(), format!("{w2} y")], String::new()));
+            }
+        }
+        let n_rand = if quick { 300 } else { 6000 };
+        for _ in 0..n_rand {
+            let n = 1 + ctx.rng.below(4) as usize;
+            let mut ls = vec![];
+            for k in 0..n {
+                let wl = ctx.rng.below(7) as usize;
+                let w: String = (0..wl).map(|_| if ctx.rng.chance(1, 2) { ' ' } else { '\t' }).collect();
+                let body = if k > 0 && ctx.rng.chance(1, 5) { String::new() } else { escape('t', &gen_string(&mut ctx.rng, 4).replace('\n', "n")) };
+                ls.push(format!("{w}{body}"));
+            }
+            let cw: String = (0..ctx.rng.below(5)).map(|_| if ctx.rng.chance(1, 2) { ' ' } else { '\t' }).collect();
+            lits.push((ls, cw));
+        }
+        for (ls, close_ws) in lits {
+            // block layout; the first content line must not be blank (leading blank lines are dropped),
+            // no line may end in `"` directly before a closer (not the case here: closer on its own line)
+            if ls.is_empty() || is_blank(&ls[0]) { continue; }
+            let lit = format!("\"\"\"\n{}\n{close_ws}\"\"\"", ls.join("\n"));
+            // expected value by the rule above, then escape-decoded the same way the generator encoded
+            let raw = dedent_value(&ls);
+            jobs.push(Job::Dedent { lit, raw });
+        }
+    }
     // ---- literals in pattern position (parse_match_pattern has its own IntLit/FloatLit/StringLit arms)
     let n_pat = if quick { 120 } else { 2000 };
     let pat_mags: Vec<u128> = vec![0, 7, 1000, 4294967296, 9223372036854775806, 9223372036854775807, 9223372036854775808, 18446744073709551616, 99999999999999999999];
@@ -268,6 +368,7 @@ fn main() {
             let got = match &r.outcome { Outcome::Done => format!("ok {}", r.out), Outcome::Rejected(_) => "rejected".into(), o => format!("other {}", o.tag()) };
             Out { lex: impl_lex(pattern, true), run: Some(got) }
         }
+        Job::Dedent { lit, .. } => Out { lex: impl_lex(lit, true), run: Some(run_print(lit)) },
         Job::Shebang { src, .. } => {
             let r = run_program(src);
             let got = match &r.outcome { Outcome::Done => format!("ok {}", r.out), Outcome::Rejected(_) => "rejected".into(), o => format!("other {}", o.tag()) };
@@ -332,6 +433,24 @@ fn main() {
                 if let Some(req) = model_req {
                     let as_model = if got == "ok hit" { format!("ok {}", value) } else if got == "rejected" { "range".to_string() } else { got.clone() };
                     ctx.case(format!("{req} #pattern"), as_model);
+                }
+            }
+            Job::Dedent { lit, raw } => {
+                ctx.count("triple:per-line-indentation");
+                if lit.contains(" \t") { ctx.count("triple:space-before-tab"); }
+                ctx.case(format!("lex {} #dedent", hex_str(lit)), o.lex.clone());
+                // decode the escapes of the expected raw text with the lexer on a plain double-quoted spelling
+                // is not possible in general (raw may hold `"`), so compare through the model-independent
+                // decoder below
+                let want = decode_escapes(raw);
+                let n = lit.len();
+                let want_lex = format!("StringLit:{}/0/{} Eof/{}/{} |", hex_str(&want), n, n, n);
+                if o.lex != want_lex {
+                    ctx.spec_fail(format!("triple-quoted literal {lit:?}: lexer gives `{}`, each line minus the common measured indentation is {want:?} i.e. `{want_lex}`", o.lex));
+                }
+                let want_run = format!("ok {want}");
+                if o.run.as_deref() != Some(want_run.as_str()) {
+                    ctx.spec_fail(format!("triple-quoted literal {lit:?}: program printed {:?}, expected {want:?}", o.run));
                 }
             }
             Job::Shebang { src, want } => {
